@@ -100,4 +100,35 @@ theorem nodup_scan {name : Nat → List Char} {t : Tx} (hb : (keys t.backend).No
   exact hb'.2.2 ha
 
 end Tx
+
+/-! ### the commands keep store keys distinct -/
+
+theorem nodup_rawGet {m : Mem} (h : (keys m.store).Nodup) (k : Key) : (keys (m.rawGet k).1.store).Nodup := by
+  unfold Mem.rawGet
+  split
+  · exact h
+  · split
+    · exact Mem.nodup_keys_put h _ _
+    · exact Mem.nodup_keys_erase h _
+
+theorem nodup_getMany (ks : List Key) {m : Mem} (h : (keys m.store).Nodup) :
+    (keys (m.getMany ks).1.store).Nodup := by
+  induction ks generalizing m with
+  | nil => exact h
+  | cons k ks ih => exact ih (nodup_rawGet h k)
+
+theorem nodup_rawSet {m : Mem} (h : (keys m.store).Nodup) (k : Key) (v : Val) (ttl : Option Nat) :
+    (keys (m.rawSet k v ttl).store).Nodup := by
+  unfold Mem.rawSet Mem.trim
+  have hp := Mem.nodup_keys_put h k ⟨v, m.newDeadline k ttl⟩
+  simp only
+  split
+  · unfold keys at *
+    rw [List.map_tail]
+    exact hp.sublist (List.tail_sublist _)
+  · exact hp
+
+theorem nodup_getMatch {name : Nat → List Char} {m : Mem} (h : (keys m.store).Nodup) (pat : List Char) :
+    (keys (getMatch name m pat).1.store).Nodup := nodup_getMany _ h
+
 end CashewsVerif.Glob
